@@ -1239,7 +1239,7 @@ def fam_status(tier, outdir):
     consts = {"Handles": "{1}", "MaxTime": 0, "MaxCalls": 6, "PipeCap": 4, "MaxOut": 0, "ExitCodes": "{" + ", ".join(str(i) for i in range(256)) + "}", "TermDelay": 1,
               "Signals": "{" + ", ".join(str(i) for i in range(1, 32) if i not in (17, 18, 19, 20, 21, 22, 23, 28)) + "}"}
     cfg = os.path.join(outdir, "MC_Status.cfg")
-    write_cfg(cfg, "Spec", consts, ["TypeOK", "LifeChild", "Stable"], export_stride=1)
+    write_cfg(cfg, "Spec", consts, ["TypeOK", "LifeChild", "Stable"], export_stride=1, view="viewS")
     return run_tlc_export("status", "MC_Status", cfg, outdir, tier, asan_stride=4, stride=1)
 
 
